@@ -77,15 +77,88 @@ pub fn finish_job(stats: &Stats) -> ! {
     std::process::exit(0);
 }
 
+fn run_one(kind: &str, spec: &Value) -> Stats {
+    let name = spec["program"].as_str().unwrap_or("");
+    let n = spec["n"].as_u64().unwrap_or(0) as usize;
+    match kind {
+        "c36prog" => crate::c36::program_job(name, n),
+        "c37prog" => crate::c37::program_case(name, n, spec["with_expected"].as_bool().unwrap()),
+        "c38prog" => crate::c38::program_job(name, spec),
+        other => crate::driver::machinery(&format!("unknown job {other}")),
+    }
+}
+
 pub fn job_main(spec: &str) -> ! {
     let job: Value = serde_json::from_str(spec).unwrap_or_else(|e| crate::driver::machinery(&format!("bad VF_SIM1_JOB: {e}")));
-    let name = job["program"].as_str().unwrap_or("").to_string();
-    let n = job["n"].as_u64().unwrap_or(0) as usize;
-    match job["job"].as_str().unwrap_or("") {
-        "c36prog" => finish_job(&crate::c36::program_job(&name, n)),
-        "c37prog" => finish_job(&crate::c37::program_case(&name, n, job["with_expected"].as_bool().unwrap())),
-        "c38prog" => crate::c38::program_job(&name, &job),
-        "c38one" => crate::c38::child_one(&name, job["case"].as_str().unwrap()),
-        other => crate::driver::machinery(&format!("unknown job {other}")),
+    let kind = job["job"].as_str().unwrap_or("").to_string();
+    if kind == "c38one" {
+        crate::c38::child_one(job["program"].as_str().unwrap(), job["case"].as_str().unwrap());
+    }
+    let specs = job["specs"].as_array().cloned().unwrap_or_default();
+    // programs of one job share this process: concurrent simulator builds are coordinated inside
+    // one process (as under `cargo test`), not across processes
+    let st = vf_explore::par_map(specs.len(), vf_explore::ncpu().min(6), |i| run_one(&kind, &specs[i]));
+    finish_job(&st);
+}
+
+/// Run the per-program `specs` of job `kind`: all programs without `"solo": true` in ONE child
+/// process (threads), solo programs each in their own child, one child at a time. If the group
+/// child dies, every program is re-run alone so that the crash is attributed to its program.
+/// A dead child becomes a violation `<prefix>/<program>/simulator-crash`.
+pub fn run_programs(kind: &str, specs: &[Value], prefix: &str) -> (Stats, Vec<String>) {
+    let crash_stats = |spec: &Value, crash: String| {
+        let name = spec["program"].as_str().unwrap_or("?");
+        let mut st = Stats::new();
+        st.eval();
+        st.violation(
+            format!("{prefix}/{name}/simulator-crash"),
+            format!("program {name}: the process simulating it died: {crash}"),
+            json!({"section": "crash", "job": kind, "spec": spec}),
+        );
+        st
+    };
+    let group: Vec<Value> = specs.iter().filter(|s| s["solo"].as_bool() != Some(true)).cloned().collect();
+    let mut solo: Vec<Value> = specs.iter().filter(|s| s["solo"].as_bool() == Some(true)).cloned().collect();
+    let mut total = Stats::new();
+    let mut lines = vec![];
+    if !group.is_empty() {
+        match spawn_job(&json!({"job": kind, "specs": group})) {
+            Ok(r) => {
+                total.merge(r.stats);
+                lines.extend(r.lines);
+            }
+            Err(crash) => {
+                println!("  note: the child running {} programs together died ({crash}); re-running each program alone", group.len());
+                solo.splice(0..0, group);
+            }
+        }
+    }
+    for spec in &solo {
+        match spawn_job(&json!({"job": kind, "specs": [spec]})) {
+            Ok(r) => {
+                total.merge(r.stats);
+                lines.extend(r.lines);
+            }
+            Err(crash) => total.merge(crash_stats(spec, crash)),
+        }
+    }
+    (total, lines)
+}
+
+/// `--replay` of a crash case: the program alone in a child process.
+pub fn replay_crash(case: &Value) -> bool {
+    let kind = case["job"].as_str().unwrap();
+    match spawn_job(&json!({"job": kind, "specs": [case["spec"]]})) {
+        Ok(r) => {
+            println!("replay: the child process survived ({} executions, {} violations)", r.stats.evaluations, r.stats.violations_total);
+            for v in &r.stats.violations {
+                println!("replay: VIOLATION [{}] {}", v.key, v.what);
+            }
+            !r.stats.violations.is_empty()
+        }
+        Err(crash) => {
+            println!("replay: VIOLATION the simulating process died: {crash}");
+            true
+        }
     }
 }
